@@ -37,6 +37,15 @@ def enc(v):
         return {'t': 'list', 'v': [enc(x) for x in v]}
     if isinstance(v, dict):
         return {'t': 'dict', 'v': [[enc(k), enc(x)] for k, x in v.items()]}
+    if isinstance(v, (set, frozenset)):
+        return {'t': type(v).__name__,
+                'v': [enc(x) for x in sorted(v, key=repr)]}
+    if isinstance(v, complex):
+        return {'t': 'complex', 'v': [repr(v.real), repr(v.imag)]}
+    if isinstance(v, bytearray):
+        return {'t': 'bytearray', 'v': bytes(v).decode('latin-1')}
+    if isinstance(v, range):
+        return {'t': 'range', 'v': [v.start, v.stop, v.step]}
     raise TypeError('cannot encode %r' % (v,))
 
 
@@ -55,6 +64,16 @@ def dec(v):
             return datetime.date.fromisoformat(x)
         if t == 'time':
             return datetime.time.fromisoformat(x)
+        if t == 'set':
+            return set(dec(y) for y in x)
+        if t == 'frozenset':
+            return frozenset(dec(y) for y in x)
+        if t == 'complex':
+            return complex(float(x[0]), float(x[1]))
+        if t == 'bytearray':
+            return bytearray(x.encode('latin-1'))
+        if t == 'range':
+            return range(*x)
         if t == 'tuple':
             return tuple(dec(y) for y in x)
         if t == 'list':
